@@ -401,6 +401,7 @@ type node struct {
 	sizeOv int      // producer-count override in force (0 = none)
 	events int
 	prpsdAtRaise int // number of proposed-LIB entries when the LIB last advanced
+	reorgSinceRaise bool // a permitted reorganisation happened since the LIB last advanced
 	taint  string // class of a tagged failure whose consequences later failures on this node are
 }
 
